@@ -173,3 +173,55 @@ func init() {
 		verifEntries[n] = f
 	}
 }
+
+// ---- C05 (system part): cycles through the public API
+var vC05s = []string{"C05s.", "C02.reentry"}
+
+func verifC05sa() { // no defer: every Provide is checked
+	verifRunProfile(&vProfile{name: "C05sa", clauses: vC05s,
+		maxScopes: 2, nRegs: 3, maxParams: 1, maxResults: 1, pForms: 1, rForms: 1, names: 1, export: true,
+		faults: 1, nInvokes: 1, invParams: 1, distinct: true, lateScopes: true})
+}
+
+func verifC05sb() { // DeferAcyclicVerification
+	verifRunProfile(&vProfile{name: "C05sb", clauses: vC05s,
+		maxScopes: 2, nRegs: 2, maxParams: 1, maxResults: 1, pForms: 1, rForms: 1, names: 1, export: true, deferOpt: 1,
+		faults: 1, nInvokes: 2, invParams: 1, distinct: true})
+}
+
+func verifC05sc() { // group and optional edges
+	verifRunProfile(&vProfile{name: "C05sc", clauses: vC05s,
+		maxScopes: 2, nRegs: 2, maxParams: 1, maxResults: 1, pForms: 2, rForms: 1, names: 1, groups: true, optional: true, deferOpt: 2,
+		faults: 1, nInvokes: 1, invParams: 1, distinct: true})
+}
+
+// ---- C09: key identity
+var vC09 = []string{"C09.", "C01.arg", "C01.zero", "C04.err"}
+
+func verifC09a() { // names and result objects, duplicates allowed
+	verifRunProfile(&vProfile{name: "C09a", clauses: vC09,
+		maxScopes: 2, nRegs: 2, maxParams: 0, maxResults: 2, pForms: 2, rForms: 2, names: 2, export: true,
+		faults: 1, nInvokes: 1, invParams: 1})
+}
+
+func verifC09b() { // As
+	verifRunProfile(&vProfile{name: "C09b", clauses: vC09,
+		maxScopes: 1, nRegs: 2, maxParams: 0, maxResults: 1, pForms: 2, rForms: 1, names: 2, as: true, groups: true,
+		faults: 1, nInvokes: 1, invParams: 2})
+}
+
+func init() {
+	for n, f := range map[string]func(){
+		"verifC05sa": verifC05sa, "verifC05sb": verifC05sb, "verifC05sc": verifC05sc, "verifC09a": verifC09a, "verifC09b": verifC09b,
+	} {
+		verifEntries[n] = f
+	}
+}
+
+func verifC02d() { // decorators with an extra dependency or a second key
+	verifRunProfile(&vProfile{name: "C02d", clauses: append([]string{"C05s."}, vC02...),
+		maxScopes: 1, nRegs: 3, maxParams: 1, maxResults: 1, pForms: 1, rForms: 1, names: 1, decorators: 1, decor2: true,
+		faults: 1, nInvokes: 1, invParams: 1, distinct: true, noMissing: true})
+}
+
+func init() { verifEntries["verifC02d"] = verifC02d }
